@@ -50,9 +50,9 @@ def run(chk):
             # min depth + total length + the largest *top* thickness (the depth cut-off has to use the largest of both)
             f.pop("sections", None)
             f.pop("max depth", None)
-            th0 = float(round(rng.uniform(2e4, 6e4)))
-            f["segments"] = [{"length": float(round(rng.uniform(1.5e5, 3e5))), "thickness": [th0, float(round(th0 * rng.uniform(3, 5)))],
-                              "angle": [float(round(rng.uniform(55, 89), 1))]}]
+            th0 = float(round(rng.uniform(2e4, 4e4)))
+            f["segments"] = [{"length": float(round(rng.uniform(8e4, 1.5e5))), "thickness": [th0, float(round(th0 * rng.uniform(5, 8)))],
+                              "angle": [float(round(rng.uniform(40, 75), 1))]}]
             if f["model"] == "fault":
                 f["model"] = "subducting plate"
             f["composition models"] = [{"model": "uniform", "compositions": [0]}]
